@@ -314,14 +314,17 @@ func (n *names) conns(cs []Conn) string {
 // coq renders the configuration for the model (C05/Model.v, record constructors
 // CF / FC / PD / CN / EP / PR)
 func (cf *Config) coq(n *names) string {
-	fl := c.MapList(cf.Flows, func(f FlowCfg) string {
-		procs := c.MapList(f.Procs, func(p Proc) string {
-			return "(PD " + c.Z(n.procs.id(p.Key)) + " " + c.B(strings.Contains(p.Key, ".")) + " " + c.Z(typeID(p.Type)) + " " +
-				c.MapList(p.Params, func(k string) string { return c.Z(paramID(k)) }) + ")"
-		})
-		return "(FC " + c.Z(n.flows.id(f.Name)) + " " + c.B(f.URL != "") + " " + procs + " " + n.conns(f.Req) + " " + n.conns(f.Res) + ")"
-	})
+	fl := c.MapList(cf.Flows, func(f FlowCfg) string { return n.flowCoq(&f) })
 	return "(CF " + fl + " " + c.B(len(cf.Quotas) > 0) + ")"
+}
+
+// flowCoq renders one flow (record constructor FC)
+func (n *names) flowCoq(f *FlowCfg) string {
+	procs := c.MapList(f.Procs, func(p Proc) string {
+		return "(PD " + c.Z(n.procs.id(p.Key)) + " " + c.B(strings.Contains(p.Key, ".")) + " " + c.Z(typeID(p.Type)) + " " +
+			c.MapList(p.Params, func(k string) string { return c.Z(paramID(k)) }) + ")"
+	})
+	return "(FC " + c.Z(n.flows.id(f.Name)) + " " + c.B(f.URL != "") + " " + procs + " " + n.conns(f.Req) + " " + n.conns(f.Res) + ")"
 }
 
 // keyID: the model's node key for a processor reference name ("k" / "B.k")
